@@ -177,10 +177,19 @@ def run(pid, tier, seed):
         rng.shuffle(cases)
         cases = cases[:limit]
     root = os.path.join(chk.workdir, "tree")
-    for c in cases:
+    for ci, c in enumerate(cases):
         chk.count(1, traces=1)
         chk.distinct(json.dumps(c["files"], sort_keys=True))
         judge_case(chk, c, root, "G", pid)
+        if pid == "C08" and ci % 4 == 0:
+            # the same tree with the names of the struct Aa and the enum Ee exchanged (an alpha-renaming), loaded in the
+            # same process: the kind an identifier had in an earlier load must not matter
+            from .chk_syntax import swap_names
+            twin = json.loads(swap_names(json.dumps(c), "Aa", "Ee", quoted=True))
+            for f, g in zip(twin["files"], c["files"]):
+                f["text"] = swap_names(g["text"], "Aa", "Ee")
+            chk.count(1, traces=1)
+            judge_case(chk, twin, root, "G-renamed-twin", pid)
         chk.sample({"files": {"/".join(f["path"]) + ".fcp": f["text"] for f in c["files"]},
                     "specified": {k: c[k] for k in ("ok", "why", "file", "type", "struct", "inject")}}, cap=2)
     # (T) random declaration lists cut into random file trees; TLC (Ora_Modules) says what loading them gives
